@@ -73,6 +73,7 @@ def all_cones(ctx):
     specs += [("comp", m) for m in (2, 3, 4)]
     specs += [("W", c[1], "unit") for c in cones.integer_cones_2d()]
     specs += [("theta3", t) for t in (30, 60, 90, 120, 150)]
+    specs += [("W", ((0, 1, -1), (1, -1, -1), (1, 0, 1)), "unit")]  # the F12 witness stays in every tier
     specs += _int_cones_3d(ctx.thorough)
     c4 = _int_cones_4d()
     specs += c4 if ctx.thorough else c4[::12]
